@@ -813,12 +813,12 @@ fn main() {
         Some("pipe") => {
             // a helper that spins forever on a real descriptor must not hang the check: SIGALRM kills
             // the driver (reported as a crash of the code under test)
-            unsafe { libc::alarm(300 + 40 * args[3].parse::<u32>().unwrap_or(1)) };
+            unsafe { libc::alarm((300 + 40 * args[3].parse::<u32>().unwrap_or(1)) * std::env::var("IOHELP_ALARM_SCALE").ok().and_then(|x| x.parse::<u32>().ok()).unwrap_or(1)) };
             pipe_path(args[2].parse().unwrap(), args[3].parse().unwrap());
             return;
         }
         Some("print") => {
-            unsafe { libc::alarm(300 + 40 * args[3].parse::<u32>().unwrap_or(1)) };
+            unsafe { libc::alarm((300 + 40 * args[3].parse::<u32>().unwrap_or(1)) * std::env::var("IOHELP_ALARM_SCALE").ok().and_then(|x| x.parse::<u32>().ok()).unwrap_or(1)) };
             print_path(args[2].parse().unwrap(), args[3].parse().unwrap());
             return;
         }
